@@ -43,7 +43,7 @@ FN_OPS = ["fn_ema", "fn_ema_grouped", "fn_group_sum", "fn_group_min", "fn_group_
 RULE = (
     "one run = one value dtype class + a logical dataset + a container for the key(s) and for every value column drawn from NumPy (contiguous, "
     "strided view, slice of a larger array, read-only), pandas Series (NumPy- or Arrow-backed), Categorical, polars Series, pyarrow Array/ChunkedArray "
-    "+ strategy knobs + a history of 1-5 steps (thorough: up to 8) drawn from every public operation family and the stand-alone array functions; after "
+    "+ strategy knobs + a history of 1-6 steps (thorough: up to 8) drawn from every public operation family and the stand-alone array functions; after "
     "about half of the steps the client overwrites every writable byte of the result (pandas .iloc setter, raw ndarray writes, dict members) and repeats "
     "the call on the same and on a fresh GroupBy; every 5th run injects a worker failure. Non-trivial: at least one zero-copy container (anything but a "
     "private contiguous ndarray), at least one step through a simulated pool with >=2 tasks, and one scribble followed by a repeat call. "
@@ -320,8 +320,8 @@ def gen_scenario(scen: Choices, cls, cfg):
         val_cont.append(c)
     cut_lens = gen._cuts(scen, n)
     mask_readonly = bool(scen.draw(2))
-    max_steps = 5 if tier == "quick" else 8
-    nsteps = 1 + scen.small(max_steps - 1)
+    max_steps = 6 if tier == "quick" else 8
+    nsteps = 1 + scen.draw(max_steps)
     steps = []
     while len(steps) < max_steps:
         b_ = scen.begin()
